@@ -83,6 +83,7 @@ def check_vdot(case, rec):
         rec.label('different_leading_charges')
     va, vb = cvec(a.A), cvec(b.A)
     mag = tmag(a.A) * tmag(b.A)
+    tmag_b = tmag(b.A)
     got = ptn.vdot(a, b)
     ref = np.vdot(va, vb)      # first argument conjugated
     err = abs(complex(got) - complex(ref))
@@ -107,6 +108,21 @@ def check_vdot(case, rec):
             require(abs(val - complex(ref)) <= TOL * max(mag, 1e-300), 'left block . right block differs from the inner product', cut=i,
                     got=val, ref=complex(ref), magnitude=mag)
         rec.label('transfer_blocks')
+    # the same states in another bond gauge: diag(2^k) on an interior bond of each (powers of two: every product of entries is
+    # unchanged bit for bit, but the bond channels now differ in scale by up to 2^120); the inner product and the norm do not change
+    if len(a.A) >= 2:
+        rng = np.random.default_rng(fam['mps'][0]['seed'] + 3)
+        for psi in (a, b):
+            k = 1 + int(rng.integers(0, len(psi.A) - 1))
+            x = 2.0 ** rng.integers(-60, 61, size=psi.A[k].shape[1])
+            psi.A[k - 1] = psi.A[k - 1] * x[None, None, :]
+            psi.A[k] = psi.A[k] / x[None, :, None]
+        got3 = ptn.vdot(a, b)
+        require(abs(complex(got3) - complex(ref)) <= TOL * max(mag, 1e-300), 'vdot changes under a power-of-two bond gauge of its arguments',
+                got=complex(got3), ref=complex(ref), magnitude=mag)
+        nb = float(np.linalg.norm(vb))
+        require(abs(float(ptn.norm(b)) - nb) <= TOL * max(tmag_b, 1e-300), 'norm changes under a power-of-two bond gauge', got=float(ptn.norm(b)), ref=nb)
+        rec.label('bond_gauge_rescaled')
     rec.label('L=%d' % len(a.A))
     if abs(ref.imag) > 1e-8 * mag:
         rec.label('complex_value')
